@@ -36,7 +36,12 @@ def run(run_, pkg, tier):
         key = "C12-T1/edge-chi2-is-its-calc_chi2/dims=%s" % "x".join(map(str, dims))
         if run_.wants(key):
             tasks.append((key, "C12-T1-chi2-is-graph-chi2", own_chi2_obligation(dims), "%s:%d" % (efn._gs_module, efn.lineno)))
-    record(run_, tasks, run_tasks(pkg, tasks))
+    results = run_tasks(pkg, tasks)
+    from ..algebra import across_thresholds
+    from ..assembly import directed_assembly_tasks
+    results, xt, xr = across_thresholds(run_, pkg, tasks, results, directed_assembly_tasks("C12-T1/chi2-of-assembly", "C12-T1-chi2-is-graph-chi2", "%s:%d" % (gfn._gs_module, gfn.lineno), chi2_only=True))
+    record(run_, tasks, results)
+    record(run_, xt, xr)
     oa = optim_rules.analyse(pkg)
     n = optim_rules.optimize_verdicts(run_, pkg, "C12", lambda f: (f.key, f.rule) if f.rule.startswith("C12-") else None)
     sem_ok = bool(oa.semantic) and all(x["status"] == "ok" for x in oa.semantic)
